@@ -202,6 +202,7 @@ pub fn run_check(prop: &str, tier: &str) -> i32 {
             seq_check(prop, tier, s, &["C14"], budget * 0.3, &mut report);
             let bound = if thorough { 3 } else { 2 };
             schedprops::run_programs(concprogs::scan_programs(thorough), bound, 3000, budget * 0.4, &schedprops::judge_linearizable, None, &["C14"], &mut report);
+            c14::stress_supplement(&mut report, if thorough { 20.0 } else { 3.0 });
         }
         "C15" => {
             report.level = "exploration";
@@ -227,7 +228,7 @@ pub fn run_check(prop: &str, tier: &str) -> i32 {
             let bound = if thorough { 3 } else { 2 };
             schedprops::run_programs(concprogs::sweep_programs(thorough), bound, 3000, budget * 0.25, &schedprops::judge_linearizable, None, &["C11", "C07", "C13", "C14"], &mut report);
             // crash between the TTL write and its flush, reopened with TTL on
-            let cs: Vec<Suite> = suites::crash_suites(thorough).into_iter().filter(|s| s.name == "crash-ttl-v3").collect();
+            let cs: Vec<Suite> = suites::crash_suites(thorough).into_iter().filter(|s| s.name == "crash-ttl-v3" || s.name.starts_with("crash-ttl-reuse")).collect();
             let plan = crashprops::CrashPlan { crash: true, layout_tag: "C10", nest: 0, reopen_cycles: 0, sector_tear: false, layout: false };
             crashprops::crash_check(prop, cs, &["C11", "C02", "C03"], plan, budget * 0.25, &mut report);
         }
